@@ -52,7 +52,7 @@ HANG_PINS = ["10**10**10", "m**2**2**2**2**2**2"]
 PINS = [
     # symbol / expression exponents and bases
     "m**s", "m**(2*s)", "2**m", "m**m", "m**(-s)", "m**(s/2)", "m**(s**2)", "m**(2.0*s)", "m**sqrt(s)", "(2*m)**s",
-    "m**sqrt(2)", "m**(10**10)", "m**10**10", "km**(10**10)", "m**1e400", "1e400*m", "1e-400*m", "m**(1/0)", "m**(0/0)",
+    "m**sqrt(2)", "J**((2/3)*(-1)**0.5)", "m**(2**0.5)", "2**0.5*m", "m**(10**10)", "m**10**10", "km**(10**10)", "m**1e400", "1e400*m", "1e-400*m", "m**(1/0)", "m**(0/0)",
     "m/0", "0*m", "0/m", "m**0", "(-2)**(1/3)*m", "(-8)**(1/3)*m", "(-1)**0.5", "(-1)**0.5*m", "m**(-1)**0.5", "(-m)**0.5",
     "(-2*m)**(1/3)", "m**True", "m*True", "m**None", "m**dimensionless", "m**rad", "m**(kg/g)", "m**(m/m)", "m**(s*0)",
     # operators and syntax
@@ -87,7 +87,16 @@ PINS = [
     "(dimensionless)", "dimensionless**2", "dimensionless*m", "m*'s'", "m" * 5000, "m*" * 200 + "m", "m*" * 3000 + "m",
     "(" * 60 + "m" + ")" * 60, "(" * 300 + "m" + ")" * 300, "sqrt(" * 40 + "m" + ")" * 40, "-" * 3000 + "m",
     "1" * 5000 + "*m", "m**0." + "3" * 3000, " " * 20000, "m**-" * 1500 + "1", "m/" * 3000 + "s", "1e" + "9" * 5 + "*m",
-    "m**(10**6)", "m**(10**10**3)", "10**10**3*m",
+    "m**(10**6)", "m**(10**10**3)", "10**10**3*m", "10**5000+m", "(10**5000, m)", "(10**5000*m)**s", "[10**5000]",
+    "s**(10**-5000)-1", "10**5000*m", "m**(10**5000)", "10**-5000*m", "10**5000*nosuchunit",
+    # calls of names that are not part of the vocabulary
+    "exp(0)*m", "exp(1)*m", "log(1)", "log(1)+m", "Abs(-2)*m", "sin(0)", "sin(0)+m", "cos(0)*m", "tan(0)+m", "pow(m,2)",
+    "max(m,s)", "min(2,3)*m", "sum((m,))", "round(2.5)*m", "len('ab')*m", "ord('a')*m", "bool(1)", "factorial(3)*m",
+    "Mul(m,s)", "Pow(m,2)", "Add(m,m)", "S(2)*m", "sympify('m')", "parse_expr('m')", "simplify(m)", "N(2)*m", "cbrt(m)",
+    "root(m,3)", "Min(2,3)*m", "Max(2,3)*m", "floor(2.5)*m", "ceiling(2.5)*m", "sign(2)*m", "gamma(3)*m", "binomial(4,2)*m",
+    "pi*m", "E*m", "exp_polar(0)*m", "Id(m)", "Lambda(x, x)(m)", "Function('f')(m)", "Dummy()", "Wild('a')", "symbols('m')",
+    "var('m')", "oo*m", "zoo*m", "nan*m", "true", "false", "GoldenRatio*m", "EulerGamma*m", "Catalan*m", "I*m",
+    "m^2", "m^s", "m^-1", "2^3*m", "(m)^(2)", "m ^ 2",
 ] + G.CANARIES + ["(%s, m)[1]" % c for c in G.CANARIES] + ["m**(%s)" % c for c in G.CANARIES[:6]]
 
 
@@ -102,6 +111,8 @@ for _s in ["Symbol('')", "Symbol('')*m"]:
     PIN_FAMILY[_s] = "empty-symbol-name"
 for _s in HANG_PINS:
     PIN_FAMILY[_s] = "power-tower"
+for _s in ["10**5000+m", "(10**5000, m)", "(10**5000*m)**s", "[10**5000]", "s**(10**-5000)-1"]:
+    PIN_FAMILY[_s] = "huge-integer-in-error-message"
 # pins outside the vocabulary that this tree accepts (reported under their construct class only)
 KNOWN_VOCAB_PINS = {"m+m", "m-m", "m+s-s", "4//2*m", "(1<<2)*m", "~1*m", "(1|2)*m", "(3&1)*m", "(3^1)*m", "(m,s)[0]",
                     "(m,s)[1==1]", "{m:s}[m]", "[m][0]", "('a',m)[1]", "(f'',m)[1]", "(1<2,m)[1]", "(...,m)[1]", "(sin,m)[1]",
@@ -148,7 +159,7 @@ SPELL_GROUPS = [
 RT_SRC = ("import math\nfrom sympy import Symbol, Integer, Rational, Float\nfrom fractions import Fraction\n" +
           inspect.getsource(G.same_value) + "SPECIAL_OK = (Symbol, Integer, Rational, Float)\n" +
           inspect.getsource(G.micro_only) +
-          inspect.getsource(G.rt_check))
+          inspect.getsource(G.rt_check) + inspect.getsource(G._rt_check))
 MK = ("regs = c20_registries()\n"
       "def mk(s, rn):\n    return Unit(s) if regs[rn] is None else Unit(s, registry=regs[rn])\n")
 
@@ -439,6 +450,13 @@ for steps, rn in [
     (["u = Unit('kpc', registry=reg)", "u = u ** Fraction(3, 2)"], "custom"),
     (["u = Unit(2.5 * Unit('km', registry=reg), registry=reg)"], "default"),
     (["u = Unit('erg', registry=reg)", "u = u.get_mks_equivalent()"], "default"),
+    (["u = Unit('l_pl', registry=reg)", "u = u ** 3", "u = (u * Unit('Zlx', registry=reg) / Unit('cerg', registry=reg)).simplify()",
+      "u = u ** math.pi"], "default"),
+    (["u = Unit('foe', registry=reg)", "u = u / Unit('ystatA', registry=reg)", "u = u ** math.pi", "u = (u * u) ** 0.5"], "default"),
+    (["u = Unit('uamp', registry=reg)", "u = u * Unit('s', registry=reg)"], "default"),
+    (["u = Unit('lat', registry=reg)", "u = (u * u) ** 0.5"], "default"),
+    (["u = Unit('lat', registry=reg)", "u = u ** 2", "u = u ** 0.5", "u = u / Unit('s', registry=reg)"], "default"),
+    (["u = Unit('Symbol(\\'m\\')', registry=reg)"], "default"),
 ]:
     add("arith", steps, rn)
 
